@@ -24,6 +24,12 @@ CLAIMS = {
             'Slot tables of EvolutionProxy, the sin/cos table of PrepareEvolve and the FastEvolutionProxy table fed with it are extracted '
             'for d=2..6 and compared with exp(iHt) A exp(-iHt) over the extracted basis; pair indices form a bijection with level pairs.',
             'static analysis: abstract interpretation into trigonometric-polynomial tables; comparison with the conjugation formula'),
+    'C14': ('proof',
+            'Binary entry points are discovered from the AST (21 required today) and each is abstractly interpreted for all 20 ordered pairs of '
+            'different dimensions with symbolic data: an exception must be raised with no operand write and no access outside the extent of any '
+            'abstract memory block; the 10 dimension-taking constructors/factories are interpreted over the window of unsupported arguments named by '
+            'the property (dimension 1,7,8; non-square shapes; list lengths up to 64; indices up to d*d+2).',
+            'static analysis: guard-dominance decided by abstract interpretation over the finite set of dimension pairs, with extent-checked abstract memory'),
     'C06': ('proof',
             'All 35 plane-rotation kernels (917 slot tables) are compared with R^dagger A R as trigonometric polynomials modulo sin^2+cos^2=1; '
             'the rotation sequences of RotateToB0/B1 are compared with the factor order of GetTransformationMatrix, each factor with the plane rotation '
